@@ -8,6 +8,7 @@ from typing import Dict, List, Optional, Set, Tuple
 from ..cfg import Node
 from ..core import Ctx, Report, snippet, where
 from ..model import Func, own_nodes, src
+from ..pathsem import function_paths
 from .c03 import SIBLINGS, helper_for_field, r03_1, r03_2, r03_3
 from .common import chain, chains_in, deep_resolve, mentions, names_in, norm_field, reachable_without_edges, single_env
 from .shading import analyse_shading, check_strictly_above
@@ -265,6 +266,37 @@ def skip_forwarding(ctx: Ctx, rep: Report, rid: str = "R11.6") -> None:
     rep.floor(4, "calls that must forward the skip options")
 
 
+def ungroup_always_flattens(ctx: Ctx, rep: Report, rid: str = "R11.7") -> None:
+    """The report is computed on a flattened copy: `Acl.ungroup()` flattens whenever it is called - an ACL can hold groups
+    without a grouping prefix (built from `items=[AceGroup, ...]`, from data, by insert), so no path of ungroup() returns
+    without having replaced the items by the flat list (entries inside a group would be missing from the report)."""
+    rep.rule(rid)
+    f = ctx.func("Acl.ungroup")
+    cfg = ctx.cfg(f)
+    paths = [p for p in function_paths(cfg) if not p.raises]
+    rep.instance(len(paths))
+    bad = None
+    for p in paths:
+        flat = False
+        for node, _lab in p.nodes:
+            if node.kind == "stmt" and isinstance(node.ast, ast.Assign) and any(isinstance(t, ast.Attribute) and src(t.value) == "self" and t.attr in ("items", "_items") for t in node.ast.targets) and "_ungroup(" in src(node.ast.value):
+                flat = True
+        if not flat:
+            bad = p
+            break
+    if bad is not None:
+        held = "; ".join(f"{snippet(t, 30)}{'' if tr else ' (false)'}" for t, tr in bad.atoms)
+        rep.violation("Acl.ungroup", f"path [{held}] returns without flattening", "groups that the ACL holds stay groups on this path: shading() / delete_shadow(), which work on an ungrouped copy, do not see the entries inside them", where(f), inp="Acl(items=[AceGroup(...), ...]) without group_by; acl.shading()")
+    else:
+        rep.ok("Acl.ungroup", "every normal path stores the flattened list", where=where(f))
+    sh = ctx.func("Acl.shading")
+    rep.instance()
+    if any(isinstance(x, ast.Call) and isinstance(x.func, ast.Attribute) and x.func.attr in ("ungroup", "_ungroup") for x in own_nodes(sh.node)):
+        rep.ok("Acl.shading", "works on an ungrouped copy", where=where(sh))
+    else:
+        rep.violation("Acl.shading", "flattening", "the report no longer flattens the groups before comparing entries", where(sh))
+
+
 def run(ctx: Ctx, rep: Report, tier: str) -> None:
     # R11.0: every clause C03 decides about the pairwise test (conjunction, skip independence/monotonicity = the
     # 'for every combination of skip options' clause, sibling agreement, inclusion direction, ...) is a premise here
@@ -281,3 +313,4 @@ def run(ctx: Ctx, rep: Report, tier: str) -> None:
     r11_4(ctx, rep, helpers)
     r11_5(ctx, rep)
     skip_forwarding(ctx, rep)
+    ungroup_always_flattens(ctx, rep)
